@@ -176,8 +176,14 @@ class Run:
             replay_paths.append(path)
             print(f"VIOLATION property={self.pid} replay={path}")
             print(f"  clause={clause} sig={sig} occurrences={len(vs)} (distinct failing cases for this property: {len(groups)})")
-        for c in self.context[:5]:
-            print(f"  context: clause {c['clause']} of another property failed at {json.dumps(c['at'])}")
+        shown = 0
+        for c in self.context:
+            other = c["clause"].split(".")[0]
+            if findings.match(self.known_db, other, c["clause"], c.get("sig", "")) is not None:
+                continue  # a listed known finding of another property
+            if shown < 5:
+                print(f"  context: clause {c['clause']} of another property failed at {json.dumps(c['at'])}")
+            shown += 1
         for n in self.notes[:20]:
             print("NOTE " + n)
         cov = {
